@@ -529,7 +529,7 @@ Proof. intros. unfold ld. apply map_ext. intros. apply H. Qed.
 Lemma hfn_ext : forall h o, fn_ext (hfn h o).
 Proof.
   intros h o u u' g g' l l' rw rw' b Hu Hg Hl Hr.
-  destruct h; unfold hfn; cbv zeta; cbn [li_row li_bit];
+  destruct h; unfold hfn; try (destruct (ExecImplV.vdesc_of a f op); [unfold v_core|]); cbv zeta; cbn [li_row li_bit];
     rewrite ?(rd_ext u u' rw rw' Hu Hr), ?(flat_addr_ext o u u' rw rw' Hu Hr),
       ?(fun off => ds_addr_ext o u u' rw rw' off Hu Hr), ?(fun x n => reg_bytes_ext rw rw' x n Hr),
       ?(fun a n => ld_ext g g' a n Hg), ?(fun a n => ld_ext l l' a n Hl); reflexivity.
@@ -538,15 +538,15 @@ Qed.
 Lemma hfn_ld_or_st : forall h o, ld_or_st (hfn h o).
 Proof.
   intros h o. destruct (is_mem h) eqn:E.
-  - destruct h; try discriminate E; try (right; intros; split; reflexivity); left; intros; reflexivity.
+  - destruct h; try discriminate E; right; intros; split; reflexivity.
   - left. intros. destruct h; try discriminate E; reflexivity.
 Qed.
 
 Lemma hdesc_f : forall h o, d_f (hdesc h o) = hfn h o.
-Proof. intros. destruct h; reflexivity. Qed.
+Proof. reflexivity. Qed.
 
 Lemma hdesc_acc : forall h o st, d_from_acc (hdesc h o) = true -> acc0 (hdesc h o) st = src_val (hdesc h o) st.
-Proof. intros h o st H. destruct h; try discriminate H; reflexivity. Qed.
+Proof. intros h o st H. discriminate H. Qed.
 
 Theorem hdesc_seq_loop_is_lift : forall h o st, veq (seq_loop (hdesc h o) st) (vec_lift (hdesc h o) st).
 Proof.
